@@ -191,7 +191,7 @@ class Ctx:
     # ---------------------------------------------------------------- finish
     def finish(self) -> int:
         known = load_known()
-        for group, key, minimum in self.requirements:
+        for group, key, minimum in sorted(set(map(tuple, self.requirements))):
             got = self.groups.get(group, {}).get(key, 0)
             if got < minimum:
                 self.inconclusive_because(f"monitor {group}/{key} saw {got} events (< {minimum})")
@@ -240,6 +240,10 @@ class Ctx:
             verdict, code = "inconclusive", 2
             lines.append(f"INCONCLUSIVE property={self.prop} reason=" + "; ".join(self.inconclusive))
 
+        reqs = [
+            {"monitor": f"{g}/{k}", "minimum": m, "observed": self.groups.get(g, {}).get(k, 0)}
+            for g, k, m in sorted(set(map(tuple, self.requirements)))
+        ]
         coverage = {
             "evaluations": self.evaluations,
             "distinct_nontrivial": len(self.distinct),
@@ -249,6 +253,7 @@ class Ctx:
             "known_findings": matched_known,
             "violation_keys": [v["key"] for v in new_violations],
             "inconclusive_reasons": self.inconclusive,
+            "monitor_requirements": reqs,
         }
         if self.exhaustive is not None:
             coverage["exhaustive"] = bool(self.exhaustive)
